@@ -176,6 +176,11 @@ class Options:
 
         while rawdata:
             if rawdata[0] == 0xFF:
+                if len(rawdata) == 1:
+                    # RFC 7252 Section 3: "The presence of a marker followed by
+                    # a zero-length payload MUST be processed as a message
+                    # format error."
+                    raise UnparsableMessage("Payload marker without payload")
                 return rawdata[1:]
             dllen = rawdata[0]
             delta = (dllen & 0xF0) >> 4
